@@ -181,7 +181,10 @@ def check_query(q, funcs, enums, tier, logdir):
             if q.get("start_line"):
                 sl = (q["src"], locate(q["start_line"], base))
             if q.get("end_line"):
-                el = (q["src"], locate(q["end_line"], sl[1] if sl else base))
+                ends = q["end_line"] if isinstance(q["end_line"], list) else [q["end_line"]]
+                # an end marker may lie before the start (a loop head): each is searched from the function's first line
+                el = [(q["src"], locate(rx, (sl[1] if sl else base) if not rx.startswith("(?#loophead)") else base)) for rx in ends]
+        ctx.slice = dict(start=sl, ends=el)
         fn, paths = ex.run(q["func"], sl, el)
         ctx.fn = fn
         pre = q["pre"](ctx)
